@@ -200,6 +200,13 @@ MUTANTS = [
     ("C13", TC, "        kwargs[\"tree_list\"] = self\n        cur_size = len(self._trees)", "        kwargs[\"tree_list\"] = self\n        kwargs.pop(\"rooting\", None)\n        cur_size = len(self._trees)",
      "TreeList.read: one reader option swallowed on the incremental route only"),
     ("C13", TC, "        new_size = len(self._trees)\n        return new_size - cur_size", "        new_size = len(self._trees)\n        return new_size", "TreeList.read returns the size, not the number read"),
+    ("C13", TC, "                for tree in target_tree_list[tree_offset:]:\n                    tree_list._trees.append(tree)",
+     "                for tree in target_tree_list[tree_offset:tree_offset + 1]:\n                    tree_list._trees.append(tree)", "TreeList.get with a tree offset: only that one tree"),
+    ("C13", TC, "        if collection_offset is None and tree_offset is not None:\n            collection_offset = 0", "        if collection_offset is None and tree_offset:\n            collection_offset = 0",
+     "TreeList.get(tree_offset=0) without a collection offset: every collection is read"),
+    ("C13", TC, "            target_tree_list = tree_lists[collection_offset]\n            tree_list.copy_annotations_from(target_tree_list)",
+     "            target_tree_list = tree_lists[-1] if collection_offset + 1 == len(tree_lists) - 1 else tree_lists[collection_offset]\n            tree_list.copy_annotations_from(target_tree_list)",
+     "TreeList.get: the last-but-one collection is answered with the last"),
     ("C19", "dendropy/datamodel/charmatrixmodel.py", "        self.fill(value=value, size=size, append=append)", "        self.fill(value=value, size=size)",
      "pack: `append` not passed on to fill"),
     ("C19", "dendropy/datamodel/charmatrixmodel.py", "            if taxon not in to_keep:\n                del self._taxon_sequence_map[taxon]",
